@@ -329,8 +329,8 @@ impl Property for C19 {
     }
     fn cases(&self, tier: Tier) -> u32 {
         match tier {
-            Tier::Quick => 40_000,
-            Tier::Thorough => 600_000,
+            Tier::Quick => 1_000_000,
+            Tier::Thorough => 10_000_000,
         }
     }
     fn rule(&self) -> String {
